@@ -89,7 +89,8 @@ def run(ctx):
         if len({o[0] for o in ops}) == 2:
             nontriv += 1
     # long single-instance histories (implementation only): late answers vs a fresh instance
-    longs = [ipgen.long_history(rng, 16000 if q else 60000, B=B, pfx="D") for B in (8, 0)]
+    # (the second history pushes the memo past a million entries: 32 prefixes per address when no host bits are kept)
+    longs = [ipgen.long_history(rng, n, B=B, pfx="D") for n, B in ((16000 if q else 60000, 8), (70000 if q else 120000, 0))]
     lo = vlib.run_impl(longs, jobs=2)
     probes = []
     for c, out in zip(longs, lo):
